@@ -712,3 +712,73 @@ func c12NameAndConstructor(x *X) {
 func init() {
 	register(&Scenario{Prop: "C12", Name: "c12/options-name-and-constructor", Quick: []Bound{{0, 0}}, Thorough: []Bound{{0, 0}}, Body: c12NameAndConstructor, MinHB: 1, MaxSteps: 200000, BudgetQ: 15})
 }
+
+// one Server announced on two addresses with different Options (another header encoder and another
+// body codec on the second): a client of either address, dialled after both listeners are up, with
+// that address's Options, is understood - before and after a client of the other address has been
+// served.
+func c12TwoListeners(x *X) {
+	var a, b c12Cfg
+	ea := x.Choose(len(encNames))
+	a.enc = encNames[ea]
+	b.enc = encNames[(ea+1+x.Choose(len(encNames)-1))%len(encNames)]
+	ca := x.Choose(len(c12Codecs))
+	a.cc = c12Codecs[ca]
+	b.cc = c12Codecs[(ca+1+x.Choose(len(c12Codecs)-1))%len(c12Codecs)]
+	a.srvByName, a.cliByName, b.srvByName, b.cliByName = true, true, true, true
+	order := x.Choose(2)
+	n := newNet()
+	w := newWorld()
+	srv := rpc.NewServer()
+	srv.SetLogLevel(rpc.OffLogLevel)
+	srv.SetBufferSize(1000)
+	srv.Register(&C12{w})
+	vs.GoLib("ListenA", func() { srv.ListenWithOptions("srvA", a.opts(n, true, 0)) })
+	vs.Quiesce()
+	vs.GoLib("ListenB", func() { srv.ListenWithOptions("srvB", b.opts(n, true, 0)) })
+	vs.Quiesce()
+	use := func(addr string, c c12Cfg, t uint64) string {
+		res := "hang"
+		vs.GoNamed("client-"+addr, func() {
+			conn, err := rpc.DialWithOptions(addr, c.opts(n, true, 1000))
+			if err != nil {
+				res = "dial:" + err.Error()
+				return
+			}
+			f := c.cc.fam
+			d := mkPayload(byte(t), 0, 40)
+			rep := f.newMsg(0, nil)
+			if err := conn.Call("C12."+f.method, f.newMsg(t, d), rep); err != nil {
+				res = "E:" + err.Error()
+			} else if rt, rd := f.get(rep); rt != t+100 || len(rd) != len(d) || rd[0] != d[len(d)-1]^0x5A {
+				res = fmt.Sprintf("WRONG(tag %d, %d bytes)", rt, len(rd))
+			} else {
+				res = "ok"
+			}
+			conn.Close()
+		})
+		vs.Quiesce()
+		return res
+	}
+	var got []string
+	if order == 0 {
+		got = append(got, use("srvA", a, 1), use("srvB", b, 2), use("srvA", a, 3))
+	} else {
+		got = append(got, use("srvB", b, 1), use("srvA", a, 2), use("srvB", b, 3))
+	}
+	for i, g := range got {
+		if g != "ok" {
+			x.Fail("C12/two-listeners-one-server", "one Server listens on srvA with (%q, %s) and on srvB with (%q, %s); client %d of the order %d got %q (all results %v)", a.enc, a.cc.label, b.enc, b.cc.label, i, order, g, got)
+			break
+		}
+	}
+	x.Outcome("%v", got)
+	x.Case(fmt.Sprintf("two/%s/%s/%s/%s", a.enc, a.cc.label, b.enc, b.cc.label))
+	srv.Close()
+	vs.Quiesce()
+}
+
+func init() {
+	register(&Scenario{Prop: "C12", Name: "c12/two-listeners-one-server", Quick: []Bound{{0, 0}}, Thorough: []Bound{{0, 0}}, Body: c12TwoListeners, MinHB: 1, MaxSteps: 200000, BudgetQ: 20})
+	register(&Scenario{Prop: "C12", Name: "c12/error-texts-as-data", Quick: []Bound{{0, 0}}, Thorough: []Bound{{0, 0}}, Body: c06DataTextsBodyP("C12"), MaxSteps: 200000, BudgetQ: 15, MinHB: 1})
+}
